@@ -92,9 +92,25 @@ func main() {
 	fmt.Println()
 }
 
+// funcAt maps a position to the name of the enclosing top-level function (filled per file).
+var funcRanges []struct {
+	from, to token.Pos
+	name     string
+}
+
+func funcAt(pos token.Pos) string {
+	for _, r := range funcRanges {
+		if pos >= r.from && pos <= r.to {
+			return r.name
+		}
+	}
+	return "?"
+}
+
+// site renders "file.go:line@Func": the function name gives signatures that survive line shifts.
 func site(p *packages.Package, pos token.Pos) ast.Expr {
 	ps := p.Fset.Position(pos)
-	return &ast.BasicLit{Kind: token.STRING, Value: strconv.Quote(fmt.Sprintf("%s:%d", filepath.Base(ps.Filename), ps.Line))}
+	return &ast.BasicLit{Kind: token.STRING, Value: strconv.Quote(fmt.Sprintf("%s:%d@%s", filepath.Base(ps.Filename), ps.Line, funcAt(pos)))}
 }
 
 func rt(name string) ast.Expr {
@@ -178,6 +194,25 @@ func bodyKind(b *ast.BlockStmt) int {
 }
 
 func instrumentFile(p *packages.Package, f *ast.File, name string) bool {
+	funcRanges = funcRanges[:0]
+	for _, d := range f.Decls {
+		if fd, ok := d.(*ast.FuncDecl); ok {
+			n := fd.Name.Name
+			if fd.Recv != nil && len(fd.Recv.List) > 0 {
+				t := fd.Recv.List[0].Type
+				if st, ok := t.(*ast.StarExpr); ok {
+					t = st.X
+				}
+				if id, ok := t.(*ast.Ident); ok {
+					n = id.Name + "." + n
+				}
+			}
+			funcRanges = append(funcRanges, struct {
+				from, to token.Pos
+				name     string
+			}{fd.Pos(), fd.End(), n})
+		}
+	}
 	changed := false
 	usesRt := false
 	for _, imp := range f.Imports {
